@@ -44,6 +44,12 @@ class _FormatAndDrop(logging.Handler):
         except Exception:
             pass  # (a record that cannot be formatted is the logging module's business: handleError, no exception)
         if REENTRY["on"] and not REENTRY["inside"]:
+            # every log statement (logger, line) of the library: its first 20 records in this process, then every 64th
+            site = (record.name, record.lineno)
+            n = REENTRY.setdefault("sites", {}).get(site, 0) + 1
+            REENTRY["sites"][site] = n
+            if n > 20 and n % 64:
+                return
             # the handler uses the library itself (environment 'a logging handler that uses the library'): a second call in
             # flight at every log statement of the call that is running
             REENTRY["inside"] = True
